@@ -1,7 +1,7 @@
 from pulser.backend import EmulatorBackend, Results, BitStrings
 from emu_sv.sv_config import SVConfig
 from emu_sv.sv_backend_impl import SVBackendImpl
-from emu_base import PulserData, SequenceData
+from emu_base import PulserData, SequenceData, HamiltonianType
 
 
 class SVBackend(EmulatorBackend):
@@ -37,5 +37,16 @@ class SVBackend(EmulatorBackend):
 
     @staticmethod
     def _run_from_sequence_data(sequence_data: SequenceData, config: SVConfig) -> Results:
+        # emu-sv only implements the two-level ground-rydberg (Ising) Hamiltonian:
+        # refuse anything else instead of emulating it with the wrong Hamiltonian.
+        if sequence_data.hamiltonian_type != HamiltonianType.Rydberg:
+            raise NotImplementedError(
+                "emu-sv only supports the ground-rydberg basis; "
+                "use emu-mps for XY (microwave) sequences."
+            )
+        if sequence_data.dim != 2:
+            raise NotImplementedError(
+                "emu-sv does not support leakage (more than two levels per atom)."
+            )
         impl = SVBackendImpl(config, sequence_data)
         return impl._run()
